@@ -385,7 +385,12 @@ def run(repo: Repo, chk: Check, thorough: bool = False) -> None:
 # ----------------------------------------------------------------------------------------------------------
 def _assigned_from_page_object(f: Func, name: str) -> bool:
     vals = [a.value for a in f.walk() if isinstance(a, ast.Assign) and any(isinstance(t, ast.Name) and t.id == name for t in a.targets)]
-    return bool(vals) and all((dotted(v) or '').endswith('_page_object') or (dotted(v) or '').endswith('.page_object') for v in vals)
+
+    def is_page(v: ast.AST) -> bool:
+        if isinstance(v, ast.IfExp):
+            return is_page(v.body) and is_page(v.orelse)
+        return (dotted(v) or '').endswith('_page_object') or (dotted(v) or '').endswith('.page_object')
+    return bool(vals) and all(is_page(v) for v in vals)
 
 
 def _callers_guard(repo: Repo, f: Func, pname: str) -> Tuple[bool, str]:
